@@ -1,9 +1,1054 @@
 /-
-  Lemmas/C10Tree.lean — the inductive unfolding of acyclic values and the laws of `==` on unfoldings.
+  Lemmas/C10Tree.lean — the inductive unfolding of acyclic values (`Tree`), the structural comparison `eqT` on
+  unfoldings (the algorithm of `eq` without heap, fuel and identity short-cut), and its laws.
 -/
 import SeedModel.Prim
 import SeedModel.Run
 namespace Seed.C10
 open Seed
+
+/-! ## trees -/
+
+mutual
+/-- the unfolding of a value: containers are replaced by their contents -/
+inductive Tree where
+  | null | bool (b : Bool) | int (n : Int) | str (bs : Bytes)
+  | list (xs : Trees) | obj (ps : Props)
+  | fn (a : Addr) | builtin (name : List Char) (f : BuiltinId)
+inductive Trees where
+  | nil | cons (t : Tree) (r : Trees)
+inductive Props where
+  | nil | cons (k : List Char) (t : Tree) (r : Props)
+end
+
+def Tree.kind : Tree → Kind
+  | .null => .Null | .bool _ => .Bool | .int _ => .Int | .str _ => .Str | .list _ => .List
+  | .obj _ => .Object | .builtin _ _ => .BuiltinFunc | .fn _ => .Func
+
+def Trees.toList : Trees → List Tree
+  | .nil => []
+  | .cons t r => t :: r.toList
+def Props.toList : Props → List (List Char × Tree)
+  | .nil => []
+  | .cons k t r => (k, t) :: r.toList
+def Trees.length (xs : Trees) : Nat := xs.toList.length
+def Props.length (xs : Props) : Nat := xs.toList.length
+
+/-- first entry with the key (what `BTreeMap::get` finds; keys are distinct in every real object) -/
+def getP (k : List Char) : List (List Char × Tree) → Option Tree
+  | [] => none
+  | (k', v) :: r => if k = k' then some v else getP k r
+def Props.get (k : List Char) (ps : Props) : Option Tree := getP k ps.toList
+
+mutual
+/-- `eq` on unfoldings: the same traversal, length checks, key look-ups and paths; no identity short-cut -/
+def eqT : Tree → Tree → EqRes
+  | .null, .null => .ok true
+  | .bool x, .bool y => .ok (x == y)
+  | .int x, .int y => .ok (x == y)
+  | .str x, .str y => .ok (x == y)
+  | .list xs, .list ys => if xs.length ≠ ys.length then .ok false else eqTs 0 xs ys
+  | .obj xs, .obj ys => if xs.length ≠ ys.length then .ok false else eqPs xs ys
+  | a, b => .mismatch [] (Gen.typeNameDiag a.kind) (Gen.typeNameDiag b.kind)
+def eqTs (i : Nat) : Trees → Trees → EqRes
+  | .cons x xs, .cons y ys =>
+    match eqT x y with
+    | .ok true => eqTs (i + 1) xs ys
+    | .ok false => .ok false
+    | r => r.prefixPath (c!"[" ++ natToChars i ++ c!"]")
+  | _, _ => .ok true
+def eqPs : Props → Props → EqRes
+  | .nil, _ => .ok true
+  | .cons k x xs, ys =>
+    match ys.get k with
+    | none => .ok false
+    | some y =>
+      match eqT x y with
+      | .ok true => eqPs xs ys
+      | .ok false => .ok false
+      | r => r.prefixPath (c!".'" ++ k ++ c!"'")
+end
+
+/-! ### the same loops on plain lists (so that list lemmas apply) -/
+
+def eqL (i : Nat) : List Tree → List Tree → EqRes
+  | x :: xs, y :: ys =>
+    match eqT x y with
+    | .ok true => eqL (i + 1) xs ys
+    | .ok false => .ok false
+    | r => r.prefixPath (c!"[" ++ natToChars i ++ c!"]")
+  | _, _ => .ok true
+
+def eqPL : List (List Char × Tree) → List (List Char × Tree) → EqRes
+  | [], _ => .ok true
+  | (k, x) :: xs, ys =>
+    match getP k ys with
+    | none => .ok false
+    | some y =>
+      match eqT x y with
+      | .ok true => eqPL xs ys
+      | .ok false => .ok false
+      | r => r.prefixPath (c!".'" ++ k ++ c!"'")
+
+theorem eqTs_eq : ∀ (xs ys : Trees) (i : Nat), eqTs i xs ys = eqL i xs.toList ys.toList
+  | .nil, ys, i => by cases ys <;> simp [eqTs, eqL, Trees.toList]
+  | .cons x xs, .nil, i => by simp [eqTs, eqL, Trees.toList]
+  | .cons x xs, .cons y ys, i => by
+    simp only [eqTs, eqL, Trees.toList]
+    rw [eqTs_eq xs ys (i + 1)]
+
+theorem eqPs_eq : ∀ (xs ys : Props), eqPs xs ys = eqPL xs.toList ys.toList
+  | .nil, ys => by simp [eqPs, eqPL, Props.toList]
+  | .cons k x xs, ys => by
+    simp only [eqPs, eqPL, Props.toList, Props.get]
+    rw [eqPs_eq xs ys]
+
+theorem eqT_list (xs ys : Trees) :
+    eqT (.list xs) (.list ys) = if xs.toList.length ≠ ys.toList.length then .ok false else eqL 0 xs.toList ys.toList := by
+  simp only [eqT, Trees.length, eqTs_eq]
+
+theorem eqT_obj (xs ys : Props) :
+    eqT (.obj xs) (.obj ys) = if xs.toList.length ≠ ys.toList.length then .ok false else eqPL xs.toList ys.toList := by
+  simp only [eqT, Props.length, eqPs_eq]
+
+/-- on different kinds, or two functions, the answer is the mismatch naming both kinds -/
+theorem eqT_mismatch (s t : Tree) (h : s.kind ≠ t.kind ∨ s.kind = .Func ∨ s.kind = .BuiltinFunc) :
+    eqT s t = .mismatch [] (Gen.typeNameDiag s.kind) (Gen.typeNameDiag t.kind) := by
+  cases s <;> cases t <;> simp_all [eqT, Tree.kind]
+
+/-- a boolean answer needs operands of the same non-function kind -/
+theorem eqT_ok_kind {s t : Tree} {b : Bool} (h : eqT s t = .ok b) : s.kind = t.kind := by
+  cases s <;> cases t <;> first | rfl | (simp [eqT] at h)
+
+/-! ### induction over trees with list-shaped hypotheses -/
+
+theorem Tree.induct {P : Tree → Prop}
+    (null : P .null) (bool : ∀ b, P (.bool b)) (int : ∀ n, P (.int n)) (str : ∀ b, P (.str b))
+    (list : ∀ xs : Trees, (∀ t ∈ xs.toList, P t) → P (.list xs))
+    (obj : ∀ ps : Props, (∀ k t, (k, t) ∈ ps.toList → P t) → P (.obj ps))
+    (fn : ∀ a, P (.fn a)) (builtin : ∀ n f, P (.builtin n f)) : ∀ t, P t := by
+  intro t
+  refine Tree.rec (motive_1 := P) (motive_2 := fun xs => ∀ t ∈ xs.toList, P t)
+    (motive_3 := fun ps => ∀ k t, (k, t) ∈ ps.toList → P t) null bool int str list obj fn builtin ?_ ?_ ?_ ?_ t
+  · intro t h; simp [Trees.toList] at h
+  · intro t r ht hr u hu
+    simp only [Trees.toList, List.mem_cons] at hu
+    rcases hu with rfl | hu
+    · exact ht
+    · exact hr u hu
+  · intro k t h; simp [Props.toList] at h
+  · intro k t r ht hr k' u hu
+    simp only [Props.toList, List.mem_cons, Prod.mk.injEq] at hu
+    rcases hu with ⟨_, rfl⟩ | hu
+    · exact ht
+    · exact hr k' u hu
+
+/-! ### `prefixPath` keeps booleans -/
+
+theorem prefixPath_ok {r : EqRes} {p : List Char} {b : Bool} (h : r.prefixPath p = .ok b) : r = .ok b := by
+  cases r <;> simp_all [EqRes.prefixPath]
+
+/-! ### look-ups -/
+
+def keysOf (ps : List (List Char × Tree)) : List (List Char) := ps.map Prod.fst
+
+theorem getP_none {k : List Char} {ps : List (List Char × Tree)} : getP k ps = none ↔ k ∉ keysOf ps := by
+  induction ps with
+  | nil => simp [getP, keysOf]
+  | cons p r ih =>
+    obtain ⟨k', v⟩ := p
+    by_cases hk : k = k'
+    · simp [getP, keysOf, hk]
+    · simp only [getP, hk, if_false, ih, keysOf, List.map_cons, List.mem_cons, false_or]
+
+theorem getP_mem {k : List Char} {ps : List (List Char × Tree)} {v : Tree} (h : getP k ps = some v) : (k, v) ∈ ps := by
+  induction ps with
+  | nil => simp [getP] at h
+  | cons p r ih =>
+    obtain ⟨k', v'⟩ := p
+    by_cases hk : k = k'
+    · simp only [getP, hk, if_true, Option.some.injEq] at h
+      subst h; subst hk
+      exact List.mem_cons_self
+    · simp only [getP, hk, if_false] at h
+      exact List.mem_cons_of_mem _ (ih h)
+
+theorem getP_of_mem {k : List Char} {ps : List (List Char × Tree)} {v : Tree} (hn : (keysOf ps).Nodup)
+    (h : (k, v) ∈ ps) : getP k ps = some v := by
+  induction ps with
+  | nil => simp at h
+  | cons p r ih =>
+    obtain ⟨k', v'⟩ := p
+    simp only [keysOf, List.map_cons, List.nodup_cons] at hn
+    simp only [List.mem_cons, Prod.mk.injEq] at h
+    rcases h with ⟨rfl, rfl⟩ | h
+    · simp [getP]
+    · have : k ≠ k' := by
+        rintro rfl
+        exact hn.1 (List.mem_map.mpr ⟨(k, v), h, rfl⟩)
+      simp only [getP, this, if_false]
+      exact ih hn.2 h
+
+/-- pigeonhole: a duplicate-free list included in a list that is no longer contains all of it -/
+theorem subset_of_nodup_of_length_le {α} [DecidableEq α] :
+    ∀ (xs ys : List α), xs.Nodup → (∀ a ∈ xs, a ∈ ys) → ys.length ≤ xs.length → ∀ b ∈ ys, b ∈ xs
+  | [], ys, _, _, hl => by
+    intro b hb
+    have : ys = [] := List.eq_nil_of_length_eq_zero (by simpa using hl)
+    subst this; simp at hb
+  | a :: xs, ys, hn, hsub, hl => by
+    intro b hb
+    have ha : a ∈ ys := hsub a List.mem_cons_self
+    obtain ⟨l1, l2, rfl⟩ := List.append_of_mem ha
+    rw [List.nodup_cons] at hn
+    have hsub' : ∀ c ∈ xs, c ∈ l1 ++ l2 := by
+      intro c hc
+      have hca : c ≠ a := fun h => hn.1 (h ▸ hc)
+      have := hsub c (List.mem_cons_of_mem _ hc)
+      simp only [List.mem_append, List.mem_cons] at this ⊢
+      rcases this with h | h | h
+      · exact Or.inl h
+      · exact absurd h hca
+      · exact Or.inr h
+    have hl' : (l1 ++ l2).length ≤ xs.length := by
+      simp only [List.length_append, List.length_cons] at hl ⊢
+      omega
+    have ih := subset_of_nodup_of_length_le xs (l1 ++ l2) hn.2 hsub' hl'
+    simp only [List.mem_append, List.mem_cons] at hb
+    rcases hb with h | h | h
+    · exact List.mem_cons_of_mem _ (ih b (List.mem_append.mpr (Or.inl h)))
+    · subst h; exact List.mem_cons_self
+    · exact List.mem_cons_of_mem _ (ih b (List.mem_append.mpr (Or.inr h)))
+
+/-! ### what the property loop says -/
+
+theorem eqPL_true {xs ys : List (List Char × Tree)} :
+    eqPL xs ys = .ok true ↔ ∀ k x, (k, x) ∈ xs → ∃ y, getP k ys = some y ∧ eqT x y = .ok true := by
+  induction xs with
+  | nil => simp [eqPL]
+  | cons p r ih =>
+    obtain ⟨k, x⟩ := p
+    constructor
+    · intro h k' x' hm
+      simp only [eqPL] at h
+      cases hg : getP k ys with
+      | none => simp [hg] at h
+      | some y =>
+        simp only [hg] at h
+        cases he : eqT x y with
+        | ok b =>
+          cases b with
+          | true =>
+            simp only [he] at h
+            simp only [List.mem_cons, Prod.mk.injEq] at hm
+            rcases hm with ⟨rfl, rfl⟩ | hm
+            · exact ⟨y, hg, he⟩
+            · exact ih.mp h k' x' hm
+          | false => simp [he] at h
+        | mismatch p lt rt => simp [he, EqRes.prefixPath] at h
+        | bad => simp [he, EqRes.prefixPath] at h
+        | timeout => simp [he, EqRes.prefixPath] at h
+    · intro h
+      obtain ⟨y, hg, he⟩ := h k x List.mem_cons_self
+      simp only [eqPL, hg, he]
+      exact ih.mpr fun k' x' hm => h k' x' (List.mem_cons_of_mem _ hm)
+
+theorem eqPL_false {xs ys : List (List Char × Tree)} (h : eqPL xs ys = .ok false) :
+    ∃ k x, (k, x) ∈ xs ∧ (getP k ys = none ∨ ∃ y, getP k ys = some y ∧ eqT x y = .ok false) := by
+  induction xs with
+  | nil => simp [eqPL] at h
+  | cons p r ih =>
+    obtain ⟨k, x⟩ := p
+    simp only [eqPL] at h
+    cases hg : getP k ys with
+    | none => exact ⟨k, x, List.mem_cons_self, Or.inl hg⟩
+    | some y =>
+      simp only [hg] at h
+      cases he : eqT x y with
+      | ok b =>
+        cases b with
+        | true =>
+          simp only [he] at h
+          obtain ⟨k', x', hm, hh⟩ := ih h
+          exact ⟨k', x', List.mem_cons_of_mem _ hm, hh⟩
+        | false => exact ⟨k, x, List.mem_cons_self, Or.inr ⟨y, hg, he⟩⟩
+      | mismatch p lt rt => simp [he, EqRes.prefixPath] at h
+      | bad => simp [he, EqRes.prefixPath] at h
+      | timeout => simp [he, EqRes.prefixPath] at h
+
+/-! ### well-formed trees: distinct keys in every object (the invariant of `BTreeMap`); function-free trees -/
+
+mutual
+def Tree.KO : Tree → Prop
+  | .list xs => xs.KO
+  | .obj ps => (keysOf ps.toList).Nodup ∧ ps.KO
+  | _ => True
+def Trees.KO : Trees → Prop
+  | .nil => True
+  | .cons t r => t.KO ∧ r.KO
+def Props.KO : Props → Prop
+  | .nil => True
+  | .cons _ t r => t.KO ∧ r.KO
+end
+
+mutual
+def Tree.FnFree : Tree → Prop
+  | .list xs => xs.FnFree
+  | .obj ps => ps.FnFree
+  | .fn _ => False
+  | .builtin _ _ => False
+  | _ => True
+def Trees.FnFree : Trees → Prop
+  | .nil => True
+  | .cons t r => t.FnFree ∧ r.FnFree
+def Props.FnFree : Props → Prop
+  | .nil => True
+  | .cons _ t r => t.FnFree ∧ r.FnFree
+end
+
+theorem Trees.KO_iff : ∀ xs : Trees, xs.KO ↔ ∀ t ∈ xs.toList, t.KO
+  | .nil => by simp [Trees.KO, Trees.toList]
+  | .cons t r => by simp [Trees.KO, Trees.toList, Trees.KO_iff r]
+
+theorem Props.KO_iff : ∀ ps : Props, ps.KO ↔ ∀ k t, (k, t) ∈ ps.toList → t.KO
+  | .nil => by simp [Props.KO, Props.toList]
+  | .cons k t r => by
+    simp only [Props.KO, Props.toList, Props.KO_iff r, List.mem_cons, Prod.mk.injEq]
+    constructor
+    · rintro ⟨h1, h2⟩ k' t' (⟨_, rfl⟩ | h)
+      · exact h1
+      · exact h2 k' t' h
+    · intro h
+      exact ⟨h k t (Or.inl ⟨rfl, rfl⟩), fun k' t' hm => h k' t' (Or.inr hm)⟩
+
+theorem Trees.FnFree_iff : ∀ xs : Trees, xs.FnFree ↔ ∀ t ∈ xs.toList, t.FnFree
+  | .nil => by simp [Trees.FnFree, Trees.toList]
+  | .cons t r => by simp [Trees.FnFree, Trees.toList, Trees.FnFree_iff r]
+
+theorem Props.FnFree_iff : ∀ ps : Props, ps.FnFree ↔ ∀ k t, (k, t) ∈ ps.toList → t.FnFree
+  | .nil => by simp [Props.FnFree, Props.toList]
+  | .cons k t r => by
+    simp only [Props.FnFree, Props.toList, Props.FnFree_iff r, List.mem_cons, Prod.mk.injEq]
+    constructor
+    · rintro ⟨h1, h2⟩ k' t' (⟨_, rfl⟩ | h)
+      · exact h1
+      · exact h2 k' t' h
+    · intro h
+      exact ⟨h k t (Or.inl ⟨rfl, rfl⟩), fun k' t' hm => h k' t' (Or.inr hm)⟩
+
+/-! ## the laws -/
+
+/-- never two different booleans for the two operand orders -/
+def SymAt (s : Tree) : Prop := ∀ t x y, s.KO → t.KO → eqT s t = .ok x → eqT t s = .ok y → x = y
+
+theorem symL : ∀ (xs ys : List Tree) (i j : Nat) (x y : Bool),
+    (∀ a ∈ xs, SymAt a) → (∀ a ∈ xs, a.KO) → (∀ b ∈ ys, b.KO) →
+    eqL i xs ys = .ok x → eqL j ys xs = .ok y → x = y
+  | [], ys, i, j, x, y, _, _, _, h1, h2 => by
+    cases ys <;> simp [eqL] at h1 h2 <;> (subst h1; subst h2; rfl)
+  | a :: xs, [], i, j, x, y, _, _, _, h1, h2 => by
+    simp [eqL] at h1 h2; subst h1; subst h2; rfl
+  | a :: xs, b :: ys, i, j, x, y, hs, hx, hy, h1, h2 => by
+    simp only [eqL] at h1 h2
+    have hsa := hs a List.mem_cons_self
+    have ha := hx a List.mem_cons_self
+    have hb := hy b List.mem_cons_self
+    cases hab : eqT a b with
+    | ok u =>
+      cases hba : eqT b a with
+      | ok v =>
+        have huv : u = v := hsa b u v ha hb hab hba
+        subst huv
+        cases u with
+        | true =>
+          simp only [hab, hba] at h1 h2
+          exact symL xs ys (i + 1) (j + 1) x y (fun c hc => hs c (List.mem_cons_of_mem _ hc))
+            (fun c hc => hx c (List.mem_cons_of_mem _ hc)) (fun c hc => hy c (List.mem_cons_of_mem _ hc)) h1 h2
+        | false =>
+          simp only [hab, hba] at h1 h2
+          cases h1; cases h2; rfl
+      | mismatch p lt rt => simp [hba, EqRes.prefixPath] at h2
+      | bad => simp [hba, EqRes.prefixPath] at h2
+      | timeout => simp [hba, EqRes.prefixPath] at h2
+    | mismatch p lt rt => simp [hab, EqRes.prefixPath] at h1
+    | bad => simp [hab, EqRes.prefixPath] at h1
+    | timeout => simp [hab, EqRes.prefixPath] at h1
+
+/-- one direction of the object case: everything on the left is found equal on the right ⇒ the other order cannot
+    answer `false` -/
+theorem symPL_dir {xs ys : List (List Char × Tree)} {y : Bool}
+    (hrel : ∀ k a b, (k, a) ∈ xs → (k, b) ∈ ys → ∀ u v, eqT a b = .ok u → eqT b a = .ok v → u = v)
+    (hnx : (keysOf xs).Nodup) (hny : (keysOf ys).Nodup) (hlen : xs.length = ys.length)
+    (h1 : eqPL xs ys = .ok true) (h2 : eqPL ys xs = .ok y) : y = true := by
+  cases y with
+  | true => rfl
+  | false =>
+    exfalso
+    obtain ⟨k, b, hm, hh⟩ := eqPL_false h2
+    have hall := eqPL_true.mp h1
+    rcases hh with hnone | ⟨a, hg, he⟩
+    · -- a key of ys missing in xs: impossible by counting
+      have hsub : ∀ c ∈ keysOf xs, c ∈ keysOf ys := by
+        intro c hc
+        obtain ⟨⟨c', a'⟩, hm', rfl⟩ := List.mem_map.mp hc
+        obtain ⟨b', hg', _⟩ := hall c' a' hm'
+        exact List.mem_map.mpr ⟨(c', b'), getP_mem hg', rfl⟩
+      have := subset_of_nodup_of_length_le (keysOf xs) (keysOf ys) hnx hsub (by simp [keysOf, hlen]) k
+        (List.mem_map.mpr ⟨(k, b), hm, rfl⟩)
+      exact (getP_none.mp hnone) this
+    · have hma := getP_mem hg
+      obtain ⟨b', hg', he'⟩ := hall k a hma
+      have : b' = b := by
+        have := getP_of_mem hny hm
+        rw [this] at hg'
+        exact (Option.some.inj hg').symm
+      subst this
+      have := hrel k a b' hma hm true false he' he
+      exact Bool.noConfusion this
+
+theorem eqT_sym_bool : ∀ s, SymAt s := by
+  apply Tree.induct
+  · intro t x y _ _ h1 h2
+    cases t <;> simp [eqT] at h1 h2
+    subst h1; subst h2; rfl
+  · intro b t x y _ _ h1 h2
+    cases t <;> simp [eqT] at h1 h2
+    rw [← h1, ← h2, Bool.beq_comm]
+  · intro n t x y _ _ h1 h2
+    cases t <;> simp [eqT] at h1 h2
+    rw [← h1, ← h2]
+    exact BEq.comm
+  · intro bs t x y _ _ h1 h2
+    cases t <;> simp [eqT] at h1 h2
+    rw [← h1, ← h2]
+    exact BEq.comm
+  · intro xs ih t x y hks hkt h1 h2
+    cases t with
+    | list ys =>
+      rw [eqT_list] at h1 h2
+      by_cases hl : xs.toList.length = ys.toList.length
+      · simp only [hl, ne_eq, not_true_eq_false, if_false] at h1 h2
+        simp only [Tree.KO] at hks hkt
+        exact symL xs.toList ys.toList 0 0 x y ih ((Trees.KO_iff xs).mp hks) ((Trees.KO_iff ys).mp hkt) h1 h2
+      · have hl' : ¬ ys.toList.length = xs.toList.length := fun h => hl h.symm
+        simp only [hl, hl', ne_eq, not_false_eq_true, if_true] at h1 h2
+        cases h1; cases h2; rfl
+    | _ => simp [eqT] at h1
+  · intro ps ih t x y hks hkt h1 h2
+    cases t with
+    | obj qs =>
+      rw [eqT_obj] at h1 h2
+      by_cases hl : ps.toList.length = qs.toList.length
+      · simp only [hl, ne_eq, not_true_eq_false, if_false] at h1 h2
+        simp only [Tree.KO] at hks hkt
+        have hkp := (Props.KO_iff ps).mp hks.2
+        have hkq := (Props.KO_iff qs).mp hkt.2
+        have hrel : ∀ k a b, (k, a) ∈ ps.toList → (k, b) ∈ qs.toList → ∀ u v, eqT a b = .ok u → eqT b a = .ok v → u = v :=
+          fun k a b ha hb u v hu hv => ih k a ha b u v (hkp k a ha) (hkq k b hb) hu hv
+        have hrel' : ∀ k b a, (k, b) ∈ qs.toList → (k, a) ∈ ps.toList → ∀ u v, eqT b a = .ok u → eqT a b = .ok v → u = v :=
+          fun k b a hb ha u v hu hv => (hrel k a b ha hb v u hv hu).symm
+        cases x with
+        | true =>
+          have := symPL_dir hrel hks.1 hkt.1 hl h1 h2
+          exact this.symm
+        | false =>
+          cases y with
+          | false => rfl
+          | true =>
+            have := symPL_dir hrel' hkt.1 hks.1 hl.symm h2 h1
+            exact this
+      · have hl' : ¬ qs.toList.length = ps.toList.length := fun h => hl h.symm
+        simp only [hl, hl', ne_eq, not_false_eq_true, if_true] at h1 h2
+        cases h1; cases h2; rfl
+    | _ => simp [eqT] at h1
+  · intro a t x y _ _ h1 h2
+    cases t <;> simp [eqT] at h1
+  · intro n f t x y _ _ h1 h2
+    cases t <;> simp [eqT] at h1
+
+/-- reflexive on function-free trees -/
+theorem reflL : ∀ (xs : List Tree) (i : Nat), (∀ a ∈ xs, eqT a a = .ok true) → eqL i xs xs = .ok true
+  | [], i, _ => by simp [eqL]
+  | a :: xs, i, h => by
+    simp only [eqL, h a List.mem_cons_self]
+    exact reflL xs (i + 1) fun c hc => h c (List.mem_cons_of_mem _ hc)
+
+theorem eqT_refl : ∀ s : Tree, s.FnFree → s.KO → eqT s s = .ok true := by
+  apply Tree.induct
+  · intros; simp [eqT]
+  · intros; simp [eqT]
+  · intros; simp [eqT]
+  · intros; simp [eqT]
+  · intro xs ih hf hk
+    rw [eqT_list]
+    simp only [ne_eq, not_true_eq_false, if_false]
+    simp only [Tree.FnFree, Tree.KO] at hf hk
+    exact reflL xs.toList 0 fun a ha => ih a ha ((Trees.FnFree_iff xs).mp hf a ha) ((Trees.KO_iff xs).mp hk a ha)
+  · intro ps ih hf hk
+    rw [eqT_obj]
+    simp only [ne_eq, not_true_eq_false, if_false]
+    simp only [Tree.FnFree, Tree.KO] at hf hk
+    exact eqPL_true.mpr fun k x hm =>
+      ⟨x, getP_of_mem hk.1 hm, ih k x hm ((Props.FnFree_iff ps).mp hf k x hm) ((Props.KO_iff ps).mp hk.2 k x hm)⟩
+  · intro a hf; simp [Tree.FnFree] at hf
+  · intro n f hf; simp [Tree.FnFree] at hf
+
+/-- transitive -/
+def TransAt (s : Tree) : Prop := ∀ t u, eqT s t = .ok true → eqT t u = .ok true → eqT s u = .ok true
+
+theorem eqL_true_cons {i : Nat} {a b : Tree} {xs ys : List Tree} (h : eqL i (a :: xs) (b :: ys) = .ok true) :
+    eqT a b = .ok true ∧ eqL (i + 1) xs ys = .ok true := by
+  simp only [eqL] at h
+  cases hab : eqT a b with
+  | ok u =>
+    cases u with
+    | true => simp only [hab] at h; exact ⟨rfl, h⟩
+    | false => simp [hab] at h
+  | mismatch p lt rt => simp [hab, EqRes.prefixPath] at h
+  | bad => simp [hab, EqRes.prefixPath] at h
+  | timeout => simp [hab, EqRes.prefixPath] at h
+
+theorem transL : ∀ (xs ys zs : List Tree) (i j k : Nat), (∀ a ∈ xs, TransAt a) →
+    xs.length = ys.length → ys.length = zs.length →
+    eqL i xs ys = .ok true → eqL j ys zs = .ok true → eqL k xs zs = .ok true
+  | [], _, _, _, _, _, _, _, _, _, _ => by simp [eqL]
+  | a :: xs, [], _, _, _, _, _, h, _, _, _ => by simp at h
+  | a :: xs, b :: ys, [], _, _, _, _, _, h, _, _ => by simp at h
+  | a :: xs, b :: ys, c :: zs, i, j, k, ih, hl1, hl2, h1, h2 => by
+    obtain ⟨hab, h1'⟩ := eqL_true_cons h1
+    obtain ⟨hbc, h2'⟩ := eqL_true_cons h2
+    simp only [eqL, ih a List.mem_cons_self b c hab hbc]
+    exact transL xs ys zs (i + 1) (j + 1) (k + 1) (fun d hd => ih d (List.mem_cons_of_mem _ hd))
+      (by simpa using hl1) (by simpa using hl2) h1' h2'
+
+theorem eqT_list_true {xs ys : Trees} (h : eqT (.list xs) (.list ys) = .ok true) :
+    xs.toList.length = ys.toList.length ∧ eqL 0 xs.toList ys.toList = .ok true := by
+  rw [eqT_list] at h
+  by_cases hl : xs.toList.length = ys.toList.length
+  · simp only [hl, ne_eq, not_true_eq_false, if_false] at h; exact ⟨hl, h⟩
+  · simp [hl] at h
+
+theorem eqT_obj_true {xs ys : Props} (h : eqT (.obj xs) (.obj ys) = .ok true) :
+    xs.toList.length = ys.toList.length ∧ eqPL xs.toList ys.toList = .ok true := by
+  rw [eqT_obj] at h
+  by_cases hl : xs.toList.length = ys.toList.length
+  · simp only [hl, ne_eq, not_true_eq_false, if_false] at h; exact ⟨hl, h⟩
+  · simp [hl] at h
+
+theorem eqT_trans : ∀ s, TransAt s := by
+  apply Tree.induct
+  · intro t u h1 h2
+    cases t <;> simp [eqT] at h1
+    exact h2
+  · intro b t u h1 h2
+    cases t <;> simp [eqT] at h1
+    subst h1; exact h2
+  · intro n t u h1 h2
+    cases t <;> simp [eqT] at h1
+    subst h1; exact h2
+  · intro bs t u h1 h2
+    cases t <;> simp [eqT] at h1
+    subst h1; exact h2
+  · intro xs ih t u h1 h2
+    cases t with
+    | list ys =>
+      cases u with
+      | list zs =>
+        obtain ⟨l1, e1⟩ := eqT_list_true h1
+        obtain ⟨l2, e2⟩ := eqT_list_true h2
+        rw [eqT_list]
+        simp only [l1.trans l2, ne_eq, not_true_eq_false, if_false]
+        exact transL xs.toList ys.toList zs.toList 0 0 0 ih l1 l2 e1 e2
+      | _ => simp [eqT] at h2
+    | _ => simp [eqT] at h1
+  · intro ps ih t u h1 h2
+    cases t with
+    | obj qs =>
+      cases u with
+      | obj rs =>
+        obtain ⟨l1, e1⟩ := eqT_obj_true h1
+        obtain ⟨l2, e2⟩ := eqT_obj_true h2
+        rw [eqT_obj]
+        simp only [l1.trans l2, ne_eq, not_true_eq_false, if_false]
+        refine eqPL_true.mpr fun k x hm => ?_
+        obtain ⟨y, hg, he⟩ := eqPL_true.mp e1 k x hm
+        obtain ⟨z, hg', he'⟩ := eqPL_true.mp e2 k y (getP_mem hg)
+        exact ⟨z, hg', ih k x hm y z he he'⟩
+      | _ => simp [eqT] at h2
+    | _ => simp [eqT] at h1
+  · intro a t u h1 _
+    cases t <;> simp [eqT] at h1
+  · intro n f t u h1 _
+    cases t <;> simp [eqT] at h1
+
+/-! ## values on the heap and their unfoldings -/
+
+mutual
+/-- `Unf σ v s`: `s` is the unfolding of `v` in the heap of `σ`.  A value has an unfolding iff no container is
+    reachable from itself (the derivation is finite). -/
+inductive Unf (σ : State) : Val → Tree → Prop
+  | null : Unf σ .null .null
+  | bool (b : Bool) : Unf σ (.bool b) (.bool b)
+  | int (n : Int) : Unf σ (.int n) (.int n)
+  | str (bs : Bytes) : Unf σ (.str bs) (.str bs)
+  | list {a : Addr} {items : List SVal} {ts : Trees} : σ.getList a = some items → UnfL σ items ts → Unf σ (.list a) (.list ts)
+  | obj {a : Addr} {props : ObjMap} {ps : Props} : σ.getObj a = some props → UnfP σ props ps → Unf σ (.obj a) (.obj ps)
+  | fn (a : Addr) : Unf σ (.func a) (.fn a)
+  | builtin (name : List Char) (f : BuiltinId) : Unf σ (.builtin name f) (.builtin name f)
+inductive UnfL (σ : State) : List SVal → Trees → Prop
+  | nil : UnfL σ [] .nil
+  | cons {x : SVal} {xs : List SVal} {t : Tree} {ts : Trees} : Unf σ x.v t → UnfL σ xs ts → UnfL σ (x :: xs) (.cons t ts)
+inductive UnfP (σ : State) : ObjMap → Props → Prop
+  | nil : UnfP σ [] .nil
+  | cons {k : List Char} {x : SVal} {xs : ObjMap} {t : Tree} {ts : Props} :
+      Unf σ x.v t → UnfP σ xs ts → UnfP σ ((k, x) :: xs) (.cons k t ts)
+end
+
+theorem UnfL.length {σ : State} : ∀ {items : List SVal} {ts : Trees}, UnfL σ items ts → items.length = ts.toList.length
+  | _, _, .nil => rfl
+  | _, _, .cons _ h => by simp [Trees.toList, UnfL.length h]
+
+theorem UnfP.length {σ : State} : ∀ {props : ObjMap} {ps : Props}, UnfP σ props ps → props.length = ps.toList.length
+  | _, _, .nil => rfl
+  | _, _, .cons _ h => by simp [Props.toList, UnfP.length h]
+
+theorem UnfP.get {σ : State} (k : List Char) : ∀ {props : ObjMap} {ps : Props}, UnfP σ props ps →
+    (objGet k props = none → getP k ps.toList = none) ∧
+    (∀ y, objGet k props = some y → ∃ t, getP k ps.toList = some t ∧ Unf σ y.v t)
+  | _, _, .nil => by simp [objGet, getP, Props.toList]
+  | _, _, .cons (k := k') (x := x) (t := t) hx h => by
+    have ih := UnfP.get k h
+    by_cases hk : k = k'
+    · subst hk
+      simp only [objGet, getP, Props.toList, if_true]
+      refine ⟨fun hn => (by cases hn), fun y hy => ?_⟩
+      cases hy
+      exact ⟨t, rfl, hx⟩
+    · simp only [objGet, getP, Props.toList, hk, if_false]
+      exact ih
+
+/-- the unfolding is unique -/
+theorem Unf.det {σ : State} : ∀ (s : Tree) (v : Val) (t : Tree), Unf σ v s → Unf σ v t → s = t := by
+  intro s
+  refine Tree.rec (motive_1 := fun s => ∀ v t, Unf σ v s → Unf σ v t → s = t)
+    (motive_2 := fun ss => ∀ items ts, UnfL σ items ss → UnfL σ items ts → ss = ts)
+    (motive_3 := fun ps => ∀ props qs, UnfP σ props ps → UnfP σ props qs → ps = qs)
+    ?_ ?_ ?_ ?_ ?_ ?_ ?_ ?_ ?_ ?_ ?_ ?_ s
+  · intro v t h1 h2; cases h1; cases h2; rfl
+  · intro b v t h1 h2; cases h1; cases h2; rfl
+  · intro n v t h1 h2; cases h1; cases h2; rfl
+  · intro bs v t h1 h2; cases h1; cases h2; rfl
+  · intro xs ih v t h1 h2
+    cases h1 with
+    | list hg hu =>
+      cases h2 with
+      | list hg' hu' =>
+        rw [hg] at hg'
+        cases hg'
+        rw [ih _ _ hu hu']
+  · intro ps ih v t h1 h2
+    cases h1 with
+    | obj hg hu =>
+      cases h2 with
+      | obj hg' hu' =>
+        rw [hg] at hg'
+        cases hg'
+        rw [ih _ _ hu hu']
+  · intro a v t h1 h2; cases h1; cases h2; rfl
+  · intro n f v t h1 h2; cases h1; cases h2; rfl
+  · intro items ts h1 h2; cases h1; cases h2; rfl
+  · intro t r iht ihr items ts h1 h2
+    cases h1 with
+    | cons hx hxs =>
+      cases h2 with
+      | cons hx' hxs' => rw [iht _ _ hx hx', ihr _ _ hxs hxs']
+  · intro props qs h1 h2; cases h1; cases h2; rfl
+  · intro k t r iht ihr props qs h1 h2
+    cases h1 with
+    | cons hx hxs =>
+      cases h2 with
+      | cons hx' hxs' => rw [iht _ _ hx hx', ihr _ _ hxs hxs']
+
+/-- `r` is a time-out or equals `r'` -/
+def LeT (r r' : EqRes) : Prop := r = .timeout ∨ r = r'
+
+theorem LeT.prefix {r r' : EqRes} (p : List Char) (h : LeT r r') : LeT (r.prefixPath p) (r'.prefixPath p) := by
+  rcases h with h | h
+  · subst h; exact Or.inl rfl
+  · subst h; exact Or.inr rfl
+
+/-- **the tie between `eq` on the heap and `eqT` on unfoldings**: with any fuel, `eqVal` either runs out of fuel
+    or answers exactly what the structural comparison of the unfoldings answers — in particular the identity and
+    length short-cuts, the addresses and the way the values were built do not change the answer. -/
+theorem eq_link (σ : State) : ∀ n : Nat,
+    (∀ a b s t, Unf σ a s → Unf σ b t → s.FnFree → s.KO → LeT (eqVal n σ a b) (eqT s t)) ∧
+    (∀ i xs ys ss ts, UnfL σ xs ss → UnfL σ ys ts → ss.FnFree → ss.KO →
+      LeT (eqItems n σ i xs ys) (eqL i ss.toList ts.toList)) ∧
+    (∀ xs ys ps qs, UnfP σ xs ps → UnfP σ ys qs → ps.FnFree → ps.KO →
+      LeT (eqProps n σ xs ys) (eqPL ps.toList qs.toList)) := by
+  intro n
+  induction n with
+  | zero =>
+    refine ⟨?_, ?_, ?_⟩
+    · intros; left; simp [eqVal]
+    · intros; left; simp [eqItems]
+    · intros; left; simp [eqProps]
+  | succ n ih =>
+    obtain ⟨ihV, ihI, ihP⟩ := ih
+    refine ⟨?_, ?_, ?_⟩
+    · intro a b s t ha hb hf hk
+      cases ha <;> cases hb
+      all_goals first
+        | (right; simp [eqVal, eqT, Val.kind, Tree.kind]; done)
+        | skip
+      · -- list / list
+        rename_i x items ss hga hua y items' ts hgb hub
+        by_cases hxy : x = y
+        · subst hxy
+          right
+          rw [hga] at hgb; cases hgb
+          have hdet := Unf.det (σ := σ) (.list ss) (.list x) (.list ts) (.list hga hua) (.list hga hub)
+          cases hdet
+          simp only [eqVal, if_true]
+          exact (eqT_refl _ hf hk).symm
+        · have hl1 := hua.length
+          have hl2 := hub.length
+          simp only [eqVal, hxy, if_false, hga, hgb]
+          rw [eqT_list, ← hl1, ← hl2]
+          by_cases hl : items.length = items'.length
+          · simp only [hl, ne_eq, not_true_eq_false, if_false]
+            simp only [Tree.FnFree, Tree.KO] at hf hk
+            exact ihI 0 items items' ss ts hua hub hf hk
+          · right; simp [hl]
+      · -- object / object
+        rename_i x props ps hga hua y props' qs hgb hub
+        by_cases hxy : x = y
+        · subst hxy
+          right
+          rw [hga] at hgb; cases hgb
+          have hdet := Unf.det (σ := σ) (.obj ps) (.obj x) (.obj qs) (.obj hga hua) (.obj hga hub)
+          cases hdet
+          simp only [eqVal, if_true]
+          exact (eqT_refl _ hf hk).symm
+        · have hl1 := hua.length
+          have hl2 := hub.length
+          simp only [eqVal, hxy, if_false, hga, hgb]
+          rw [eqT_obj, ← hl1, ← hl2]
+          by_cases hl : props.length = props'.length
+          · simp only [hl, ne_eq, not_true_eq_false, if_false]
+            simp only [Tree.FnFree, Tree.KO] at hf hk
+            exact ihP props props' ps qs hua hub hf hk.2
+          · right; simp [hl]
+    · intro i xs ys ss ts hx hy hf hk
+      cases hx with
+      | nil => right; simp [eqItems, eqL, Trees.toList]
+      | cons hx0 hxs =>
+        cases hy with
+        | nil => right; simp [eqItems, eqL, Trees.toList]
+        | cons hy0 hys =>
+          rename_i x xs' t0 ts0 y ys' u0 us0
+          simp only [Trees.FnFree, Trees.KO] at hf hk
+          simp only [eqItems, eqL, Trees.toList]
+          rcases ihV x.v y.v t0 u0 hx0 hy0 hf.1 hk.1 with h | h
+          · left; rw [h]; rfl
+          · rw [h]
+            cases he : eqT t0 u0 with
+            | ok b =>
+              cases b with
+              | true => exact ihI (i + 1) xs' ys' ts0 us0 hxs hys hf.2 hk.2
+              | false => right; rfl
+            | mismatch p lt rt => right; rfl
+            | bad => right; rfl
+            | timeout => right; rfl
+    · intro xs ys ps qs hx hy hf hk
+      cases hx with
+      | nil => right; simp [eqProps, eqPL, Props.toList]
+      | cons hx0 hxs =>
+        rename_i k x xs' t0 ps0
+        simp only [Props.FnFree, Props.KO] at hf hk
+        simp only [eqProps, eqPL, Props.toList]
+        have hget := UnfP.get k hy
+        cases hg : objGet k ys with
+        | none =>
+          rw [hget.1 hg]
+          right; rfl
+        | some y =>
+          obtain ⟨u, hgu, hyu⟩ := hget.2 y hg
+          rw [hgu]
+          simp only
+          rcases ihV x.v y.v t0 u hx0 hyu hf.1 hk.1 with h | h
+          · left; rw [h]; rfl
+          · rw [h]
+            cases he : eqT t0 u with
+            | ok b =>
+              cases b with
+              | true => exact ihP xs' ys ps0 qs hxs hy hf.2 hk.2
+              | false => right; rfl
+            | mismatch p lt rt => right; rfl
+            | bad => right; rfl
+            | timeout => right; rfl
+
+/-! ### totality: a boolean or a mismatch naming two kinds, nothing else -/
+
+/-- an answer that is a boolean, or a mismatch naming two different kinds (or two functions) -/
+def Good (r : EqRes) : Prop :=
+  (∃ b, r = .ok b) ∨
+  (∃ p k1 k2, r = .mismatch p (Gen.typeNameDiag k1) (Gen.typeNameDiag k2) ∧ (k1 ≠ k2 ∨ k1 = .Func ∨ k1 = .BuiltinFunc))
+
+theorem Good.prefix {r : EqRes} (p : List Char) (h : Good r) : Good (r.prefixPath p) := by
+  rcases h with ⟨b, rfl⟩ | ⟨q, k1, k2, rfl, hk⟩
+  · exact Or.inl ⟨b, rfl⟩
+  · exact Or.inr ⟨p ++ q, k1, k2, rfl, hk⟩
+
+theorem goodL : ∀ (xs ys : List Tree) (i : Nat), (∀ a ∈ xs, ∀ t, Good (eqT a t)) → Good (eqL i xs ys)
+  | [], ys, i, _ => by cases ys <;> exact Or.inl ⟨true, by simp [eqL]⟩
+  | a :: xs, [], i, _ => Or.inl ⟨true, by simp [eqL]⟩
+  | a :: xs, b :: ys, i, h => by
+    simp only [eqL]
+    have hab := h a List.mem_cons_self b
+    cases he : eqT a b with
+    | ok u =>
+      cases u with
+      | true => exact goodL xs ys (i + 1) fun c hc => h c (List.mem_cons_of_mem _ hc)
+      | false => exact Or.inl ⟨false, rfl⟩
+    | mismatch p lt rt => rw [he] at hab; exact hab.prefix _
+    | bad => rw [he] at hab; exact hab.prefix _
+    | timeout => rw [he] at hab; exact hab.prefix _
+
+theorem goodPL : ∀ (xs ys : List (List Char × Tree)), (∀ k a, (k, a) ∈ xs → ∀ t, Good (eqT a t)) → Good (eqPL xs ys)
+  | [], ys, _ => Or.inl ⟨true, by simp [eqPL]⟩
+  | (k, a) :: xs, ys, h => by
+    simp only [eqPL]
+    cases hg : getP k ys with
+    | none => exact Or.inl ⟨false, rfl⟩
+    | some b =>
+      have hab := h k a List.mem_cons_self b
+      simp only
+      cases he : eqT a b with
+      | ok u =>
+        cases u with
+        | true => exact goodPL xs ys fun k' c hc => h k' c (List.mem_cons_of_mem _ hc)
+        | false => exact Or.inl ⟨false, rfl⟩
+      | mismatch p lt rt => rw [he] at hab; exact hab.prefix _
+      | bad => rw [he] at hab; exact hab.prefix _
+      | timeout => rw [he] at hab; exact hab.prefix _
+
+theorem eqT_good : ∀ s t : Tree, Good (eqT s t) := by
+  have mm : ∀ s t : Tree, (s.kind ≠ t.kind ∨ s.kind = .Func ∨ s.kind = .BuiltinFunc) → Good (eqT s t) := by
+    intro s t h
+    rw [eqT_mismatch s t h]
+    exact Or.inr ⟨[], s.kind, t.kind, rfl, h⟩
+  apply Tree.induct
+  · intro t; cases t <;> first | exact Or.inl ⟨_, by simp [eqT]; rfl⟩ | exact mm _ _ (by simp [Tree.kind])
+  · intro b t; cases t <;> first | exact Or.inl ⟨_, by simp [eqT]; rfl⟩ | exact mm _ _ (by simp [Tree.kind])
+  · intro n t; cases t <;> first | exact Or.inl ⟨_, by simp [eqT]; rfl⟩ | exact mm _ _ (by simp [Tree.kind])
+  · intro bs t; cases t <;> first | exact Or.inl ⟨_, by simp [eqT]; rfl⟩ | exact mm _ _ (by simp [Tree.kind])
+  · intro xs ih t
+    cases t with
+    | list ys =>
+      rw [eqT_list]
+      split
+      · exact Or.inl ⟨false, rfl⟩
+      · exact goodL _ _ 0 ih
+    | _ => exact mm _ _ (by simp [Tree.kind])
+  · intro ps ih t
+    cases t with
+    | obj qs =>
+      rw [eqT_obj]
+      split
+      · exact Or.inl ⟨false, rfl⟩
+      · exact goodPL _ _ ih
+    | _ => exact mm _ _ (by simp [Tree.kind])
+  · intro a t; exact mm _ _ (by simp [Tree.kind])
+  · intro n f t; exact mm _ _ (by simp [Tree.kind])
+
+/-! ### `true` only on equal trees (objects in canonical key order, as `BTreeMap` keeps them) -/
+
+theorem keyLt_irrefl : ∀ a : List Char, keyLt a a = false
+  | [] => rfl
+  | c :: r => by simp [keyLt, keyLt_irrefl r]
+
+theorem keyLt_asymm : ∀ a b : List Char, keyLt a b = true → keyLt b a = false
+  | [], [], h => by simp [keyLt] at h
+  | [], _ :: _, _ => rfl
+  | _ :: _, [], h => by simp [keyLt] at h
+  | c :: r, d :: q, h => by
+    simp only [keyLt] at h ⊢
+    by_cases h1 : c.toNat < d.toNat
+    · have : ¬ d.toNat < c.toNat := by omega
+      simp [this, h1]
+    · by_cases h2 : d.toNat < c.toNat
+      · simp [h1, h2] at h
+      · simp only [h1, h2, if_false] at h ⊢
+        exact keyLt_asymm r q h
+
+/-- the keys of a list of entries are strictly increasing -/
+def KeysSorted (ps : List (List Char × Tree)) : Prop := (keysOf ps).Pairwise (fun a b => keyLt a b = true)
+
+theorem KeysSorted.nodup {ps : List (List Char × Tree)} (h : KeysSorted ps) : (keysOf ps).Nodup := by
+  unfold KeysSorted at h
+  refine List.Pairwise.imp ?_ h
+  intro a b hab he
+  subst he
+  rw [keyLt_irrefl] at hab
+  cases hab
+
+mutual
+def Tree.Canon : Tree → Prop
+  | .list xs => xs.Canon
+  | .obj ps => KeysSorted ps.toList ∧ ps.Canon
+  | _ => True
+def Trees.Canon : Trees → Prop
+  | .nil => True
+  | .cons t r => t.Canon ∧ r.Canon
+def Props.Canon : Props → Prop
+  | .nil => True
+  | .cons _ t r => t.Canon ∧ r.Canon
+end
+
+theorem Trees.Canon_iff : ∀ xs : Trees, xs.Canon ↔ ∀ t ∈ xs.toList, t.Canon
+  | .nil => by simp [Trees.Canon, Trees.toList]
+  | .cons t r => by simp [Trees.Canon, Trees.toList, Trees.Canon_iff r]
+
+theorem Props.Canon_iff : ∀ ps : Props, ps.Canon ↔ ∀ k t, (k, t) ∈ ps.toList → t.Canon
+  | .nil => by simp [Props.Canon, Props.toList]
+  | .cons k t r => by
+    simp only [Props.Canon, Props.toList, Props.Canon_iff r, List.mem_cons, Prod.mk.injEq]
+    constructor
+    · rintro ⟨h1, h2⟩ k' t' (⟨_, rfl⟩ | h)
+      · exact h1
+      · exact h2 k' t' h
+    · intro h
+      exact ⟨h k t (Or.inl ⟨rfl, rfl⟩), fun k' t' hm => h k' t' (Or.inr hm)⟩
+
+theorem Trees.toList_inj : ∀ xs ys : Trees, xs.toList = ys.toList → xs = ys
+  | .nil, .nil, _ => rfl
+  | .nil, .cons _ _, h => by simp [Trees.toList] at h
+  | .cons _ _, .nil, h => by simp [Trees.toList] at h
+  | .cons a xs, .cons b ys, h => by
+    simp only [Trees.toList, List.cons.injEq] at h
+    rw [h.1, Trees.toList_inj xs ys h.2]
+
+theorem Props.toList_inj : ∀ xs ys : Props, xs.toList = ys.toList → xs = ys
+  | .nil, .nil, _ => rfl
+  | .nil, .cons _ _ _, h => by simp [Props.toList] at h
+  | .cons _ _ _, .nil, h => by simp [Props.toList] at h
+  | .cons k a xs, .cons l b ys, h => by
+    simp only [Props.toList, List.cons.injEq, Prod.mk.injEq] at h
+    rw [h.1.1, h.1.2, Props.toList_inj xs ys h.2]
+
+/-- two key-sorted entry lists with the same members are the same list -/
+theorem sorted_ext : ∀ (xs ys : List (List Char × Tree)), KeysSorted xs → KeysSorted ys →
+    (∀ p ∈ xs, p ∈ ys) → (∀ p ∈ ys, p ∈ xs) → xs = ys
+  | [], [], _, _, _, _ => rfl
+  | [], q :: ys, _, _, _, h => by have := h q List.mem_cons_self; simp at this
+  | p :: xs, [], _, _, h, _ => by have := h p List.mem_cons_self; simp at this
+  | p :: xs, q :: ys, hx, hy, h1, h2 => by
+    simp only [KeysSorted, keysOf, List.map_cons, List.pairwise_cons] at hx hy
+    have hpq : p = q := by
+      have hp := h1 p List.mem_cons_self
+      have hq := h2 q List.mem_cons_self
+      simp only [List.mem_cons] at hp hq
+      rcases hp with hp | hp
+      · exact hp
+      · rcases hq with hq | hq
+        · exact hq.symm
+        · have a1 := hy.1 p.1 (List.mem_map.mpr ⟨p, hp, rfl⟩)
+          have a2 := hx.1 q.1 (List.mem_map.mpr ⟨q, hq, rfl⟩)
+          rw [keyLt_asymm _ _ a1] at a2
+          cases a2
+    subst hpq
+    have tl : ∀ (zs ws : List (List Char × Tree)),
+        (∀ a' ∈ List.map Prod.fst zs, keyLt p.1 a' = true) → (∀ r ∈ p :: zs, r ∈ p :: ws) → ∀ r ∈ zs, r ∈ ws := by
+      intro zs ws hz hsub r hr
+      have := hsub r (List.mem_cons_of_mem _ hr)
+      simp only [List.mem_cons] at this
+      rcases this with rfl | h
+      · have := hz r.1 (List.mem_map.mpr ⟨r, hr, rfl⟩)
+        rw [keyLt_irrefl] at this
+        cases this
+      · exact h
+    rw [sorted_ext xs ys hx.2 hy.2 (tl xs ys hx.1 h1) (tl ys xs hy.1 h2)]
+
+/-- `eqT s t = true` on canonical trees forces `s = t` -/
+def TrueEqAt (s : Tree) : Prop := ∀ t, s.Canon → t.Canon → eqT s t = .ok true → s = t
+
+theorem trueEqL : ∀ (xs ys : List Tree) (i : Nat), (∀ a ∈ xs, TrueEqAt a) → (∀ a ∈ xs, a.Canon) → (∀ b ∈ ys, b.Canon) →
+    xs.length = ys.length → eqL i xs ys = .ok true → xs = ys
+  | [], [], _, _, _, _, _, _ => rfl
+  | [], _ :: _, _, _, _, _, h, _ => by simp at h
+  | _ :: _, [], _, _, _, _, h, _ => by simp at h
+  | a :: xs, b :: ys, i, ih, hx, hy, hl, h => by
+    obtain ⟨hab, h'⟩ := eqL_true_cons h
+    have := ih a List.mem_cons_self b (hx a List.mem_cons_self) (hy b List.mem_cons_self) hab
+    subst this
+    rw [trueEqL xs ys (i + 1) (fun c hc => ih c (List.mem_cons_of_mem _ hc)) (fun c hc => hx c (List.mem_cons_of_mem _ hc))
+      (fun c hc => hy c (List.mem_cons_of_mem _ hc)) (by simpa using hl) h']
+
+theorem eqT_true_eq : ∀ s, TrueEqAt s := by
+  apply Tree.induct
+  · intro t _ _ h; cases t <;> simp [eqT] at h; rfl
+  · intro b t _ _ h; cases t <;> simp [eqT] at h; rw [h]
+  · intro n t _ _ h; cases t <;> simp [eqT] at h; rw [h]
+  · intro bs t _ _ h; cases t <;> simp [eqT] at h; rw [h]
+  · intro xs ih t hs ht h
+    cases t with
+    | list ys =>
+      obtain ⟨hl, he⟩ := eqT_list_true h
+      simp only [Tree.Canon] at hs ht
+      rw [Trees.toList_inj xs ys (trueEqL _ _ 0 ih ((Trees.Canon_iff xs).mp hs) ((Trees.Canon_iff ys).mp ht) hl he)]
+    | _ => simp [eqT] at h
+  · intro ps ih t hs ht h
+    cases t with
+    | obj qs =>
+      obtain ⟨hl, he⟩ := eqT_obj_true h
+      simp only [Tree.Canon] at hs ht
+      have hall := eqPL_true.mp he
+      have hsub : ∀ p ∈ ps.toList, p ∈ qs.toList := by
+        intro p hp
+        obtain ⟨k, x⟩ := p
+        obtain ⟨y, hg, hxy⟩ := hall k x hp
+        have hm := getP_mem hg
+        have := ih k x hp y ((Props.Canon_iff ps).mp hs.2 k x hp) ((Props.Canon_iff qs).mp ht.2 k y hm) hxy
+        subst this
+        exact hm
+      have hsub' : ∀ p ∈ qs.toList, p ∈ ps.toList := by
+        -- by counting on the keys, then the value found under the key is the one in `ps`
+        intro p hp
+        obtain ⟨k, y⟩ := p
+        have hk : k ∈ keysOf ps.toList :=
+          subset_of_nodup_of_length_le (keysOf ps.toList) (keysOf qs.toList) hs.1.nodup
+            (fun c hc => by
+              obtain ⟨p', hp', rfl⟩ := List.mem_map.mp hc
+              exact List.mem_map.mpr ⟨p', hsub p' hp', rfl⟩)
+            (by simp [keysOf, hl]) k (List.mem_map.mpr ⟨(k, y), hp, rfl⟩)
+        obtain ⟨⟨k', x⟩, hx, hkx⟩ := List.mem_map.mp hk
+        simp only at hkx
+        subst hkx
+        have hxq := hsub _ hx
+        have e1 := getP_of_mem ht.1.nodup hxq
+        have e2 := getP_of_mem ht.1.nodup hp
+        rw [e1] at e2
+        cases e2
+        exact hx
+      rw [Props.toList_inj ps qs (sorted_ext _ _ hs.1 ht.1 hsub hsub')]
+    | _ => simp [eqT] at h
+  · intro a t _ _ h; cases t <;> simp [eqT] at h
+  · intro n f t _ _ h; cases t <;> simp [eqT] at h
+
+theorem Tree.Canon.KO : ∀ s : Tree, s.Canon → s.KO := by
+  apply Tree.induct
+  · intros; trivial
+  · intros; trivial
+  · intros; trivial
+  · intros; trivial
+  · intro xs ih h
+    simp only [Tree.Canon, Tree.KO] at h ⊢
+    exact (Trees.KO_iff xs).mpr fun t ht => ih t ht ((Trees.Canon_iff xs).mp h t ht)
+  · intro ps ih h
+    simp only [Tree.Canon, Tree.KO] at h ⊢
+    exact ⟨h.1.nodup, (Props.KO_iff ps).mpr fun k t ht => ih k t ht ((Props.Canon_iff ps).mp h.2 k t ht)⟩
+  · intros; trivial
+  · intros; trivial
 
 end Seed.C10
